@@ -69,29 +69,50 @@ DRAW_FLAGS = CHK + ["--signed-overflow-check", "--memory-leak-check"]
 
 def drawing_jobs(tier):
     """the drawing half: per-glyph geometry of pixman_composite_glyphs_no_mask / add_glyphs / pixman_composite_glyphs against
-    'what pixman_image_composite32 of that glyph would hand to the routine'; BOUNDED in the number of glyph entries."""
+    'what pixman_image_composite32 of that glyph would hand to the routine'; BOUNDED in the number of glyph entries.
+    measured (5 idle cores): no_mask.g1.box2 120 s, no_mask.g2.box1 115-140 s, no_mask.g1.real_region 32 s, add_glyphs.g2 40 s,
+    composite_glyphs.g1 8 s, get_extents 4 s, get_mask_format 1 s."""
     js = []
 
-    def J(name, harness, ng, functions, domain, defines=None, assumptions=None, **kw):
+    def J(name, harness, ng, functions, domain, defines=None, assumptions=None, loops=None, **kw):
         d = {"VD_NG": ng, "PIXMAN_VERIF_GLYPH_HASH_BITS": 2}
         d.update(defines or {})
-        kw.setdefault("timeout", 600)
-        kw.setdefault("unwind", 4)
-        js.append(Job(name, "C17/" + harness, defines=d, kind="bounded",
+        kw.setdefault("timeout", 900)
+        # the loops of the code under contract get exactly the iterations the bound allows + 1 (unwinding assertions are on:
+        # a renamed/added loop falls back to the global bound, too small a bound is exit 2), harness loops the global bound
+        us = ",".join(["%s:%d" % lk for lk in (loops or [])] + ["memcmp.0:72"])
+        js.append(Job(name, "C17/" + harness, defines=d, kind="bounded", unwind=4,
                       bound="%d glyph entr%s in the request" % (ng, "y" if ng == 1 else "ies (the two may be the same glyph)"), functions=functions, domain=domain,
-                      cbmc_flags=DRAW_FLAGS, assumptions=[A_RANGE, A_GLYPH_IMG, A_STUBS] + (assumptions or []), **kw))
+                      cbmc_flags=DRAW_FLAGS + ["--unwindset", us], assumptions=[A_RANGE, A_GLYPH_IMG] + (assumptions or []), **kw))
 
     F_NM = ["pixman_composite_glyphs_no_mask", "box32_intersect"]
     RS = ["repo:pixman/pixman-region32.c"]
-    J("no_mask.g1.box2", "no_mask.c", 1, F_NM, defines={"VD_NBOX": 2}, extra_sources=RS, assumptions=[A_REGION_CONTRACT], min_props=12,
+    NM0, NM1 = "pixman_composite_glyphs_no_mask.0", "pixman_composite_glyphs_no_mask.1"     # .0 = clip-box loop, .1 = glyph loop
+    J("no_mask.g1.box2", "no_mask.c", 1, F_NM, defines={"VD_NBOX": 2}, loops=[(NM0, 3), (NM1, 2)], extra_sources=RS,
+      assumptions=[A_STUBS, A_REGION_CONTRACT], min_props=12,
       domain="0..1 glyph entry, every operator code, source/destination format codes and flags, glyph size <= 2^15, origin, position, "
              "composite region FALSE or 1..2 symbolic boxes")
-    J("no_mask.g2.box1", "no_mask.c", 2, F_NM, defines={"VD_NBOX": 1}, extra_sources=RS, assumptions=[A_REGION_CONTRACT], min_props=12,
+    J("no_mask.g2.box1", "no_mask.c", 2, F_NM, defines={"VD_NBOX": 1}, loops=[(NM0, 2), (NM1, 3)], extra_sources=RS,
+      assumptions=[A_STUBS, A_REGION_CONTRACT], min_props=12,
       domain="0..2 glyph entries (two glyph objects of different size/format/flags or the same object twice), one symbolic region box: "
-             "order of the calls, lookup redone when format or flags change")
+             "order of the calls, routine looked up again when format or flags change")
     J("no_mask.g1.real_region", "no_mask.c", 1, F_NM + ["_pixman_compute_composite_region32", "clip_general_image", "pixman_region32_rectangles"],
-      defines={"VD_REAL_REGION": 1}, extra_sources=["repo:pixman/pixman.c"] + RS, assumptions=[A_REGION_REAL], min_props=12,
+      defines={"VD_REAL_REGION": 1}, loops=[(NM0, 2), (NM1, 2)], extra_sources=["repo:pixman/pixman.c"] + RS,
+      assumptions=[A_STUBS, A_REGION_REAL], min_props=12,
       domain="end to end with the real composite-region code: 0..1 glyph entry, destination of symbolic size with no clip or one symbolic clip rectangle")
+    J("add_glyphs.g2", "add_glyphs.c", 2, ["add_glyphs", "box32_intersect"], defines={"VD_ENTRY": 0}, loops=[("add_glyphs.0", 3)],
+      assumptions=[A_STUBS, A_MASK_IMG], min_props=12,
+      domain="0..2 glyph entries, each glyph of the mask's format (glyph is the source) or not (white solid source, glyph is the mask), "
+             "mask image of symbolic size/format/flags, symbolic offsets, white image creation failing or not")
+    J("composite_glyphs.g1", "add_glyphs.c", 1, ["pixman_composite_glyphs", "add_glyphs", "box32_intersect"], defines={"VD_ENTRY": 1},
+      loops=[("add_glyphs.0", 2)], assumptions=[A_STUBS, A_MASK_IMG, "composite_glyphs.g1: the mask allocation succeeds (failure: composite_glyphs.frame)"], min_props=14,
+      domain="pixman_composite_glyphs with 0..1 glyph entry: the glyph is accumulated at (x - origin_x - mask_x, y - origin_y - mask_y) into the "
+             "mask created from the request, the mask is composited once afterwards")
+    J("get_extents.g2", "glyph_info.c", 2, ["pixman_glyph_get_extents"], defines={"VD_PART": 0}, min_props=4, timeout=300,
+      domain="0..2 glyph entries, symbolic positions/origins/sizes, ghost point anywhere")
+    J("get_mask_format.g2", "glyph_info.c", 2, ["pixman_glyph_get_mask_format"], defines={"VD_PART": 1}, min_props=3, timeout=300,
+      assumptions=["get_mask_format: glyph formats are formats of pixman.h (literal list)"],
+      domain="0..2 glyph entries, every pair of pixman.h formats")
     return js
 
 
@@ -118,12 +139,20 @@ META = {
     "explanation": ("Inductive data-structure invariant cache_wf (harness/C17/gc.h) over the real pixman_glyph_cache_t: every operation is "
                     "checked from an arbitrary cache_wf state (all contents, keys, collision patterns, tombstone layouts, MRU orders), "
                     "so the statements hold after any history; the table SIZE is bounded (kind=bounded on every cache job). "
-                    "box32_intersect is a full-domain proof."),
+                    "box32_intersect is a full-domain proof.  Drawing half (harness/C17/gd.h): pixman_composite_glyphs_no_mask, add_glyphs and "
+                    "pixman_composite_glyphs call the compositing routine themselves; with the lookup and the routine replaced by recorders, every "
+                    "pixman_composite_info_t handed to the routine and the arguments of the lookup that chose it are compared with what "
+                    "pixman_image_composite32 of that one glyph image at (x - origin_x, y - origin_y) hands over for the same clip box "
+                    "(drawn rectangle = glyph box ∩ clip box, glyph sample origin = drawn origin - glyph position so that the forced COVER flag is "
+                    "true, source origin moving with the destination, no call for an empty intersection; ADD of the glyph itself or of white IN glyph "
+                    "into the mask at (-mask_x, -mask_y)); bounded in the number of glyph entries (<= 2) and clip boxes per glyph (<= 2), one job end "
+                    "to end on the real composite-region code.  pixman_glyph_get_extents == union of the glyph boxes, "
+                    "pixman_glyph_get_mask_format == literal decision table."),
     "trusted_base": ["C17: hash interception by token pasting (harness/C17/gc.h) leaves the three call sites of hash() and its definition textually intact"],
     "assumptions": [],
     "not_covered": [
         "table sizes above the bounded one (4 slots in the quick tier, 8 in the thorough tier; remove/thaw only at 4): the generalisation to HASH_SIZE 32768 is by parametricity of the code in HASH_SIZE and is stated, not proved",
-        "pixman_composite_glyphs_no_mask / add_glyphs / pixman_composite_glyphs per-glyph geometry and ADD-accumulation (only box32_intersect of the drawing half is under contract)",
-        "pixman_glyph_get_extents, pixman_glyph_get_mask_format",
+        "glyph drawing with more than 2 glyph entries / more than 2 clip boxes per glyph (bounded jobs; the per-glyph loop body is the same for every entry)",
+        "glyph drawing: which routine the lookup returns and what it draws (C02, C01): the jobs pin the interface (lookup arguments, composite info), not pixels",
     ],
 }
